@@ -226,10 +226,16 @@ def mutate_bad(r, t):
     elif k < 0.84:
         # no common member at all
         ms = [new_member(r, ids, names) for _ in range(r.choice([1, 2, 3]))]
-    elif k < 0.92:
+    elif k < 0.90:
         # name clash: a new member re-using an existing name
         m = new_member(r, ids, names)
         ms.append((m[0], m[1], name, m[3]))
+    elif k < 0.96:
+        # a one-sided member (appended at the end) that is key / must_understand
+        m = new_member(r, ids, names)
+        if all(x[0] == j for j, x in enumerate(ms)):
+            m = (len(ms), m[1], m[2], m[3])
+        ms.append((m[0], (m[1] & 8) | r.choice([2, 4, 6]), m[2], m[3]))
     else:
         r.shuffle(ms)                                               # reorder (fine for mutable)
     return ("S", ext, tname, ms)
